@@ -49,7 +49,7 @@ func verifEng(maxFieldChars int) flows.Engine {
 
 // the shared world: two static groups, query groups given by the harness
 func verifWorld(env envs.Environment, queries ...contactql.QueryNode) (*verifAssets, []*flows.Group) {
-	fields := flows.NewFieldAssets([]assets.Field{&verifField{"nick", assets.FieldTypeText}, &verifField{"age", assets.FieldTypeNumber}})
+	fields := flows.NewFieldAssets([]assets.Field{&verifField{verifTextKey, assets.FieldTypeText}, &verifField{"age", assets.FieldTypeNumber}})
 	groups := []*flows.Group{flows.VerifStaticGroup("g-s1", "Static1"), flows.VerifStaticGroup("g-s2", "Static2")}
 	for i, q := range queries {
 		g := flows.VerifQueryGroup(env, fields, assets.GroupUUID("g-q"+string(rune('1'+i))), "Query"+string(rune('1'+i)), q)
@@ -106,7 +106,7 @@ func verifView(c *flows.Contact, sa *verifAssets) *verifContactView {
 	for _, g := range c.Groups().All() {
 		v.groups[string(g.UUID())] = true
 	}
-	v.nick = verifValueText(c.Fields().Get(sa.fields.Get("nick")))
+	v.nick = verifValueText(c.Fields().Get(sa.fields.Get(verifTextKey)))
 	v.age = verifValueText(c.Fields().Get(sa.fields.Get("age")))
 	v.ticket = c.Ticket() != nil
 	return v
@@ -155,7 +155,7 @@ func verifReplay(v *verifContactView, evs []flows.Event) (changes int) {
 			}
 			changes++
 		case *events.ContactFieldChangedEvent:
-			if t.Field.Key == "nick" {
+			if t.Field.Key == verifTextKey {
 				v.nick = verifValueText(t.Value)
 			} else {
 				v.age = verifValueText(t.Value)
@@ -456,7 +456,7 @@ func VerifC03_Groups() {
 func VerifC03_Field() {
 	env := envs.NewBuilder().Build()
 	sa, groups := verifWorld(env,
-		contactql.NewCondition(contactql.PropertyTypeField, "nick", contactql.OpEqual, "ab"),
+		contactql.NewCondition(contactql.PropertyTypeField, verifTextKey, contactql.OpEqual, "ab"),
 		contactql.NewCondition(contactql.PropertyTypeField, "age", contactql.OpGreaterThan, "5"))
 	c := flows.NewEmptyContact(sa, "Bob", "eng", nil)
 	limit := 1 + zzverif.Choice("max-field-chars", 2)
@@ -470,7 +470,7 @@ func VerifC03_Field() {
 		vals := []string{"", "3", "7", "x"}
 		oldV, newV = vals[zzverif.Choice("old-value", 3)], vals[zzverif.Choice("new-value", 4)]
 	} else {
-		f = sa.fields.Get("nick")
+		f = sa.fields.Get(verifTextKey)
 		oldV, newV = []string{"", "a", "7"}[zzverif.Choice("old-value", 3)], verifShort("new-value", 2)
 		for i := 0; i < len(newV); i++ {
 			// numeric text is covered by the number field with concrete values: a
@@ -510,3 +510,9 @@ func VerifC03_TimezoneTicket() {
 	}
 	verifApplyAndCheck(verifEng(640), env, sa, groups, c, NewTicket(nil, nil, "note"))
 }
+
+// verifTextKey is the key of the text field of the harness world. It is
+// deliberately the name of a contact attribute: field keys live in their own
+// namespace (queries reach them as fields.language), so nothing may confuse
+// the field with the attribute of the same name.
+const verifTextKey = "language"
